@@ -3,7 +3,7 @@
    X ranges over ALL instances of the external functions (Go stdlib) that
    satisfy the named laws; m over all messages; o over all logging options. *)
 From Coq Require Import List NArith ZArith Ascii String Bool Permutation.
-From Martian.C16 Require Import Model Proofs_Basics Proofs_Chunk Proofs.
+From Martian.C16 Require Import Model Proofs_Basics Proofs_Chunk Proofs Proofs_Audit.
 Import ListNotations.
 
 (* method, URL, HTTP version, cookies, header list incl. Host / Content-Length /
@@ -193,3 +193,196 @@ Proof.
   - unfold wf_res. cbn. repeat constructor; cbn; intuition discriminate.
   - unfold coding_guard. vm_compute. split; [reflexivity|discriminate].
 Qed.
+
+(* ======================================================================
+   Audit round: clause coverage, verdict functions, exact characterisations
+   ====================================================================== *)
+
+(* status, version, cookies, header list, redirect URL, mime type of a logged
+   response equal the message's: for ALL messages, no guard *)
+Theorem C16_response_fields_equal : forall X o m e,
+  wf_res m -> har_res X o m = Ok e -> res_fields_spec m e /\ e_bodysize e = s_cl m.
+Proof. exact res_fields_equal. Qed.
+Print Assumptions C16_response_fields_equal.
+
+(* a response is missing from the entry exactly when capture is on and the
+   code's own decoding fails: for ALL messages (so: never with capture off,
+   never for 204/206/empty bodies, never for codings it does not decode) *)
+Theorem C16_response_dropped_iff : forall X o m, law_dechunk X ->
+  (har_res X o m = Err <-> capture o (s_hdrs m) = true /\ code_decode X m = None).
+Proof. exact response_dropped_iff. Qed.
+Print Assumptions C16_response_dropped_iff.
+
+(* the logged content is the code's decoding of the body and the size is its
+   true length: for ALL messages; equal to the specification's decoding under
+   the guard (C16_content_is_decoded_body_true_size_partial) *)
+Theorem C16_content_size_is_true_length : forall X o m e, law_dechunk X ->
+  capture o (s_hdrs m) = true -> har_res X o m = Ok e ->
+  code_decode X m = Some (ct_text (e_content e)) /\
+  ct_size (e_content e) = Z.of_nat (List.length (ct_text (e_content e))) /\
+  ct_enc (e_content e) = b64name.
+Proof. exact response_content_is_code_decode. Qed.
+Print Assumptions C16_content_size_is_true_length.
+
+(* the guard of the partial theorem is exactly "neither known signature" *)
+Theorem C16_guard_is_absence_of_known_defects : forall X m,
+  coding_guard X m <-> coding_case_b (hget k_ce (s_hdrs m)) = false /\ zlib_b X m = false.
+Proof. exact coding_guard_iff. Qed.
+Print Assumptions C16_guard_is_absence_of_known_defects.
+
+(* capture off: nothing of the body is recorded and nothing is dropped *)
+Theorem C16_nothing_captured_when_off : forall X o,
+  (forall m, capture o (q_hdrs m) = false ->
+     exists e, har_req X o m = Ok e /\
+       match r_post e with Some p => pd_text p = [] /\ pd_params p = [] | None => True end) /\
+  (forall m, capture o (s_hdrs m) = false ->
+     exists e, har_res X o m = Ok e /\ ct_text (e_content e) = [] /\ ct_size (e_content e) = 0%Z).
+Proof. exact nothing_captured_when_off. Qed.
+Print Assumptions C16_nothing_captured_when_off.
+
+(* the JSON round trip of ANY entry, exactly: every Go string sanitised, the
+   body texts untouched.  Subsumes _partial (sanitising valid strings is the
+   identity) and _refuted. *)
+Theorem C16_json_roundtrip_characterised : forall X, law_b64 X -> law_sanitize X ->
+  (forall e, roundtrip_req X e = Some (san_req X e)) /\
+  (forall e, ct_enc (e_content e) = b64name -> roundtrip_res X e = Some (san_res X e)).
+Proof.
+  intros X LB LS. split.
+  - intro e. exact (roundtrip_req_any X e LB LS).
+  - intros e E. exact (roundtrip_res_any X e LB E).
+Qed.
+Print Assumptions C16_json_roundtrip_characterised.
+
+(* an entry that comes back different contains a Go string that is not UTF-8
+   (what the driver's known-finding signature C16-K1 asserts) *)
+Theorem C16_roundtrip_differs_only_by_non_utf8_strings : forall X, law_b64 X -> law_sanitize X ->
+  (forall e, roundtrip_req X e <> Some e -> req_strings_b X e = false) /\
+  (forall e, ct_enc (e_content e) = b64name -> roundtrip_res X e <> Some e -> res_strings_b X e = false).
+Proof.
+  intros X LB LS. split.
+  - intros e H. exact (roundtrip_req_differs_only_by_strings X e LB LS H).
+  - intros e E H. exact (roundtrip_res_differs_only_by_strings X e LB LS E H).
+Qed.
+Print Assumptions C16_roundtrip_differs_only_by_non_utf8_strings.
+
+Theorem C16_strings_check_is_the_guard : forall X,
+  (forall e, req_strings_b X e = true <-> req_strings_ok X e) /\
+  (forall e, res_strings_b X e = true <-> res_strings_ok X e).
+Proof. intro X. split; [exact (req_strings_b_iff X)|exact (res_strings_b_iff X)]. Qed.
+Print Assumptions C16_strings_check_is_the_guard.
+
+(* verdict functions: which clause id the driver prints *)
+Theorem C16_request_verdict_clauses : forall X cap m e rt,
+  (req_clause X cap m e rt = 0 <-> req_spec X cap m (Ok e) rt) /\
+  (req_clause X cap m e rt = 1 <-> ~ req_fields_spec m e) /\
+  (req_clause X cap m e rt = 2 <-> req_fields_spec m e /\ ~ post_spec X cap m e) /\
+  (req_clause X cap m e rt = 3 <-> req_fields_spec m e /\ post_spec X cap m e /\ rt <> Some e).
+Proof. exact req_clause_spec. Qed.
+Print Assumptions C16_request_verdict_clauses.
+
+Theorem C16_response_verdict_clauses : forall X cap m e rt,
+  (res_clause X cap m e rt = 0 <-> res_spec X cap m (Ok e) rt) /\
+  (res_clause X cap m e rt = 1 <-> ~ res_fields_spec m e) /\
+  (res_clause X cap m e rt = 2 <-> res_fields_spec m e /\ ~ content_spec X cap m e) /\
+  (res_clause X cap m e rt = 3 <-> res_fields_spec m e /\ content_spec X cap m e /\ rt <> Some e).
+Proof. exact res_clause_spec. Qed.
+Print Assumptions C16_response_verdict_clauses.
+
+Theorem C16_response_dropped_verdict : forall X cap m rt,
+  c16_res_ok X cap m Err rt = false <-> (cap = false \/ exists d, spec_decoded X m = Some d).
+Proof. exact response_dropped_verdict. Qed.
+Print Assumptions C16_response_dropped_verdict.
+
+Theorem C16_codec_verdicts : 
+  (forall e rt, pd_rt_ok e rt = true <-> rt = Some e) /\
+  (forall e rt, ct_rt_ok e rt = true <-> rt = Some e).
+Proof. split; [exact pd_rt_ok_iff|exact ct_rt_ok_iff]. Qed.
+Print Assumptions C16_codec_verdicts.
+
+(* the model-versus-implementation comparison decides equality up to the
+   order of headers, query parameters and post parameters *)
+Theorem C16_correspondence_relation :
+  (forall a b, hreq_sim a b = true <-> hreq_equiv a b) /\
+  (forall a b, hres_sim a b = true <-> hres_equiv a b).
+Proof. split; [exact hreq_sim_iff|exact hres_sim_iff]. Qed.
+Print Assumptions C16_correspondence_relation.
+
+(* implementation-level helpers equal their specifications *)
+Theorem C16_helpers_refine : 
+  (forall l, blen l = Z.of_nat (List.length l)) /\ (forall a b, bapp a b = a ++ b) /\
+  (forall l1 l2 : list kv, perm_b kv_eq l1 l2 = true <-> Permutation l1 l2) /\
+  (forall l1 l2 : list param, perm_b param_eq l1 l2 = true <-> Permutation l1 l2).
+Proof.
+  split; [exact blen_spec|]. split; [exact bapp_app|].
+  split; [exact (perm_b_ok _ _ kv_eq_ok)|exact (perm_b_ok _ _ param_eq_ok)].
+Qed.
+Print Assumptions C16_helpers_refine.
+
+(* totalisation: the hex printer's fuel never runs out (no truncated chunk
+   size): reading back what it printed gives the number, for every N *)
+Theorem C16_chunk_size_hex_is_exact : forall n rest, head_nonhex rest ->
+  parse_hex 0 false (to_hex n ++ rest) = Some (n, rest).
+Proof. exact parse_to_hex. Qed.
+Print Assumptions C16_chunk_size_hex_is_exact.
+
+(* ------------------------------------------------------- non-vacuity *)
+(* strings guard: an entry with a binary body text satisfies it, and the
+   round trip returns it *)
+Example C16_example_strings_ok :
+  req_strings_ok (toyX Some Some Some) ex_entry /\
+  roundtrip_req (toyX Some Some Some) ex_entry = Some ex_entry.
+Proof. split; [apply req_strings_b_iff|]; vm_compute; reflexivity. Qed.
+
+(* the gzip theorem's hypotheses: a compressor with a left inverse *)
+Example C16_example_gzip_hypotheses :
+  let X := toyX (fun b => match b with _ :: r => Some r | [] => None end) Some Some in
+  let gz_c := fun p => "z"%char :: p in
+  let m := mkPmsg 200 (B "HTTP/1.1") 6 [] [(B "Content-Encoding", [B "gzip"])] (gz_c (B "hello")) [] in
+  (forall p, gunzip X (gz_c p) = Some p) /\ capture OAll (s_hdrs m) = true /\
+  hget k_ce (s_hdrs m) = B "gzip" /\ s_body m = gz_c (B "hello") /\ s_body m <> [] /\
+  exists e, har_res X OAll m = Ok e /\ ct_text (e_content e) = B "hello" /\ ct_size (e_content e) = 5%Z.
+Proof.
+  cbv zeta. split; [intro p; reflexivity|]. split; [reflexivity|]. split; [reflexivity|].
+  split; [reflexivity|]. split; [discriminate|]. eexists. split; [vm_compute; reflexivity|]. split; reflexivity.
+Qed.
+
+(* a request is dropped: capture on, urlencoded body that does not parse *)
+Example C16_example_request_dropped :
+  law_dechunk noform_X /\ har_req noform_X OAll bad_form_req = Err /\
+  capture OAll (q_hdrs bad_form_req) = true.
+Proof.
+  split; [intro b; apply dechunk_concrete_chunk_enc|]. split; vm_compute; reflexivity.
+Qed.
+
+(* a response is dropped / its guard fails: the zlib witness; and the guard's
+   decidable form on the two refutation witnesses *)
+Example C16_example_known_signatures :
+  coding_case_b (hget k_ce (s_hdrs upper_gzip_msg)) = true /\
+  zlib_b (toyX Some (fun _ => None) (fun _ => Some (B "plain"))) zlib_msg = true /\
+  coding_case_b (hget k_ce (s_hdrs ex_res)) = false /\
+  zlib_b (toyX (fun _ => Some (B "<html>")) Some Some) ex_res = false.
+Proof. repeat split; vm_compute; reflexivity. Qed.
+
+(* capture: an upper-case opt-in prefix matches a lower-case content type,
+   and the declarative side holds with an explicit witness *)
+Example C16_example_capture :
+  capture (OIn [B "image/"; B "TEXT/"]) [(B "Content-Type", [B "text/plain"])] = true /\
+  should_capture (OIn [B "image/"; B "TEXT/"]) (B "text/plain") /\
+  capture (OOut [B "text/"]) [(B "Content-Type", [B "Text/Plain"])] = false.
+Proof.
+  split; [vm_compute; reflexivity|]. split; [|vm_compute; reflexivity].
+  exists (B "TEXT/"). split; [right; left; reflexivity|]. exists (B "plain"). vm_compute. reflexivity.
+Qed.
+
+(* verdict clauses on concrete observations: a chunk-framed post data text is
+   clause 2, a lossy round trip is clause 3 *)
+Example C16_example_verdicts :
+  let X := toyX Some Some Some in
+  let good := match har_req X OAll ex_req with Ok e => e | Err => lossy_req end in
+  let framed := mkHreq (r_method good) (r_url good) (r_proto good) (r_cookies good) (r_headers good)
+                  (r_query good) (Some (mkPost (B "Text/Plain; charset=utf-8") [] (chunk_enc (q_body ex_req))))
+                  (r_bodysize good) in
+  req_clause X true ex_req good (Some good) = 0 /\
+  req_clause X true ex_req framed (Some framed) = 2 /\
+  req_clause X true ex_req good (roundtrip_req X lossy_req) = 3.
+Proof. cbv zeta. repeat split; vm_compute; reflexivity. Qed.
